@@ -71,7 +71,8 @@ func H_decl() {
 	pattern := vParamString("pattern") // e.g. "oo", "oa": option / argument per position
 	n := 1 + vChoice("n", nd)
 	for i := 0; i < n; i++ {
-		isOpt := pattern[i] == 'o'
+		isVersion := pattern[i] == 'v' // Version(name, ...) declares a flag too
+		isOpt := pattern[i] == 'o' || isVersion
 		var name string
 		if isOpt {
 			name = vAsciiString("optname", optLen)
@@ -80,6 +81,9 @@ func H_decl() {
 			for k := 0; k < len(name); k++ {
 				vAssume(!vIsBlank(name[k])) // C18: argument names are strings without blanks
 			}
+		}
+		if isVersion {
+			vAssume(len(vSplitBlanks(name)) > 0) // Version needs a name
 		}
 		// oracle: must this declaration panic?
 		mustPanic := false
@@ -113,7 +117,9 @@ func H_decl() {
 		kind := (i + len(pattern)) % 3 // which public entry point declares it
 		func() {
 			defer func() { rec = recover() }()
-			if isOpt {
+			if isVersion {
+				app.Version(name, "1.0")
+			} else if isOpt {
 				switch kind {
 				case 0:
 					app.Bool(BoolOpt{Name: name})
